@@ -34,11 +34,19 @@ pub struct RecDest {
     pub fault_fired: bool,
     /// called before every call with the call index (placement callbacks of the ENV explorer)
     pub before_call: Option<Box<dyn FnMut(usize, &str)>>,
+    /// Window translation: the destination pretends that `data[0]` lives at absolute file offset
+    /// `base` (e.g. beyond 4 GiB).  Positions handed to / returned from the writer are absolute;
+    /// `data`, `pos` and `log` stay relative to `base`.
+    pub base: u64,
+    /// current absolute position when it lies outside the window [base, base + 2 GiB)
+    pub stray_pos: Option<u64>,
+    /// writes that landed outside the window (absolute offset, length)
+    pub stray: Vec<(u64, usize)>,
 }
 
 impl RecDest {
     pub fn new(pre: Vec<u8>, start: u64, fault: Fault) -> Self {
-        RecDest { data: pre, pos: start, log: Vec::new(), calls: 0, fault, fault_fired: false, before_call: None }
+        RecDest { data: pre, pos: start, log: Vec::new(), calls: 0, fault, fault_fired: false, before_call: None, base: 0, stray_pos: None, stray: Vec::new() }
     }
     fn gate(&mut self, what: &str) -> std::io::Result<()> {
         let k = self.calls;
@@ -70,6 +78,11 @@ impl Write for RecDest {
         if n == 0 {
             return Ok(0);
         }
+        if let Some(p) = self.stray_pos {
+            self.stray.push((p, n));
+            self.stray_pos = Some(p.wrapping_add(n as u64));
+            return Ok(n);
+        }
         let at = self.pos as usize;
         if self.data.len() < at + n {
             self.data.resize(at + n, 0);
@@ -90,17 +103,28 @@ impl Seek for RecDest {
     fn seek(&mut self, s: SeekFrom) -> std::io::Result<u64> {
         let is_tell = matches!(s, SeekFrom::Current(0));
         self.gate(if is_tell { "stream_position" } else { "seek" })?;
+        let cur_abs: i128 = match self.stray_pos {
+            Some(p) => p as i128,
+            None => self.base as i128 + self.pos as i128,
+        };
         let np: i128 = match s {
             SeekFrom::Start(p) => p as i128,
-            SeekFrom::Current(d) => self.pos as i128 + d as i128,
-            SeekFrom::End(d) => self.data.len() as i128 + d as i128,
+            SeekFrom::Current(d) => cur_abs + d as i128,
+            SeekFrom::End(d) => self.base as i128 + self.data.len() as i128 + d as i128,
         };
         if np < 0 {
             return Err(Error::new(ErrorKind::InvalidInput, "seek before start"));
         }
-        self.pos = np as u64;
+        let rel = np - self.base as i128;
+        if rel < 0 || rel >= (1i128 << 31) {
+            // outside the window: remember where, store nothing
+            self.stray_pos = Some(np as u64);
+            return Ok(np as u64);
+        }
+        self.stray_pos = None;
+        self.pos = rel as u64;
         self.log.push(if is_tell { DestOp::Tell } else { DestOp::Seek { to: self.pos } });
-        Ok(self.pos)
+        Ok(np as u64)
     }
 }
 
